@@ -18,11 +18,14 @@ CASTS = {"dt.timedelta": ("as_timedelta", "timedelta"), "dt.time": ("as_time", "
 
 
 class Method(Fn):
-    def __init__(self, fd, known, state_type, fields, dicts, folded=None, recursive_as=None):
+    def __init__(self, fd, known, state_type, fields, dicts, folded=None, recursive_as=None, has_self=True):
         # drop `self` from the annotated parameters
         fd = copy.deepcopy(fd)
-        self.self_name = fd.args.args[0].arg
-        fd.args.args = fd.args.args[1:]
+        if has_self:
+            self.self_name = fd.args.args[0].arg
+            fd.args.args = fd.args.args[1:]
+        else:
+            self.self_name = None
         if fd.returns is None:
             fd.returns = ast.Name(id="None")
         super().__init__(fd, known)
@@ -72,8 +75,10 @@ class Method(Fn):
                 fail(n, "is None on a non-optional")
             a, ta = self.e(n.left)
             b, tb = self.e(n.comparators[0])
-            if ta == tb == "jobtype" and op == "Eq":
+            if ta == tb == "jobtype" and op in ("Eq", "Is"):
                 return "(pyjobtype_eqb %s %s)" % (a, b), "bool"
+            if ta == tb == "jobtype" and op in ("NotEq", "IsNot"):
+                return "(negb (pyjobtype_eqb %s %s))" % (a, b), "bool"
             if ta == tb == "datetime" and op in ("Lt", "LtE", "Gt", "GtE"):
                 v = self.newvar("c")
                 self.pre.append((v, "(%s %s %s)" % ({"Lt": "dt_lt", "LtE": "dt_le", "Gt": "dt_gt", "GtE": "dt_ge"}[op], a, b)))
